@@ -361,6 +361,630 @@ theorem run_append {L : V → Option M} (h : M → Option Mode) (p q : List (Act
     | none => simp
     | some h' => simp [ih]
 
+/-! ## Movers: lock-free steps of a disciplined program commute with steps of other threads -/
+
+theorem St.ext' {σ σ' : St M V} (h1 : σ.prog = σ'.prog) (h2 : σ.locks = σ'.locks) (h3 : σ.mem = σ'.mem)
+    (h4 : σ.seen = σ'.seen) : σ = σ' := by
+  cases σ; cases σ'; simp_all
+
+theorem step_of_eq {σ σ' σ'' : St M V} {t : Tid} (h : Step σ t σ') (e : σ' = σ'') : Step σ t σ'' := e ▸ h
+
+local macro "st_close" : tactic =>
+  `(tactic| (apply St.ext' <;> (first | rfl | (funext z; simp only [upd]; (repeat' split) <;> simp_all))))
+
+/-- Lock operations (`acq`/`rel`) as opposed to lock-free steps (plain accesses, atomic and local steps). -/
+def Act.isLockOp : Act M V → Bool
+  | .acq _ _ => true
+  | .rel _ => true
+  | _ => false
+
+
+/-- Right mover: in a state satisfying the invariant, a lock-free step of `t` followed by any step of another
+thread `u` can be swapped (same final state). No independence hypothesis is needed: the discipline excludes
+the conflicting cases. -/
+theorem lockfree_right_mover {L : V → Option M} {σ σ₁ σ₂ : St M V} {t u : Tid} (hi : Inv L σ) (hne : t ≠ u)
+    (h1 : Step σ t σ₁) (h2 : Step σ₁ u σ₂) (hfree : ∀ a, next σ t = some a → a.isLockOp = false) :
+    ∃ σ₁', Step σ u σ₁' ∧ Step σ₁' t σ₂ := by
+  have hnr : ¬ Race σ := no_race_of_disciplined (inv_disciplined hi) hi.lockOK
+  have hut : u ≠ t := Ne.symm hne
+  cases h1 with
+  | acqEx hp hw hr =>
+    rename_i m rest
+    have := hfree (.acq m .ex) (by simp [next, hp])
+    simp [Act.isLockOp] at this
+  | acqSh hp hw =>
+    rename_i m rest
+    have := hfree (.acq m .sh) (by simp [next, hp])
+    simp [Act.isLockOp] at this
+  | relEx hp hw =>
+    rename_i m rest
+    have := hfree (.rel m) (by simp [next, hp])
+    simp [Act.isLockOp] at this
+  | relSh hp hw hr =>
+    rename_i m rest
+    have := hfree (.rel m) (by simp [next, hp])
+    simp [Act.isLockOp] at this
+  | rd hp =>
+    rename_i x rest
+    cases h2 with
+    | acqEx hp2 hw2 hr2 =>
+      rename_i m2 rest2
+      simp only [upd_other _ _ hut] at hp2
+      refine ⟨_, Step.acqEx hp2 hw2 hr2, step_of_eq (Step.rd (x := x) (rest := rest) (by simp [upd_other _ _ hne, hp])) ?_⟩
+      st_close
+    | acqSh hp2 hw2 =>
+      rename_i m2 rest2
+      simp only [upd_other _ _ hut] at hp2
+      refine ⟨_, Step.acqSh hp2 hw2, step_of_eq (Step.rd (x := x) (rest := rest) (by simp [upd_other _ _ hne, hp])) ?_⟩
+      st_close
+    | relEx hp2 hw2 =>
+      rename_i m2 rest2
+      simp only [upd_other _ _ hut] at hp2
+      refine ⟨_, Step.relEx hp2 hw2, step_of_eq (Step.rd (x := x) (rest := rest) (by simp [upd_other _ _ hne, hp])) ?_⟩
+      st_close
+    | relSh hp2 hw2 hr2 =>
+      rename_i m2 rest2
+      simp only [upd_other _ _ hut] at hp2
+      refine ⟨_, Step.relSh hp2 hw2 hr2, step_of_eq (Step.rd (x := x) (rest := rest) (by simp [upd_other _ _ hne, hp])) ?_⟩
+      st_close
+    | rd hp2 =>
+      rename_i x2 rest2
+      simp only [upd_other _ _ hut] at hp2
+      refine ⟨_, Step.rd hp2, step_of_eq (Step.rd (x := x) (rest := rest) (by simp [upd_other _ _ hne, hp])) ?_⟩
+      st_close
+    | wr hp2 =>
+      rename_i x2 v2 rest2
+      simp only [upd_other _ _ hut] at hp2
+      have hxy : x2 ≠ x := by
+        intro e; subst e
+        exact hnr ⟨t, u, .rd x2, .wr x2 v2, hne, by simp [next, hp], by simp [next, hp2], rfl⟩
+      refine ⟨_, Step.wr hp2, step_of_eq (Step.rd (x := x) (rest := rest) (by simp [upd_other _ _ hne, hp])) ?_⟩
+      st_close
+    | atomicOp hp2 =>
+      rename_i rest2
+      simp only [upd_other _ _ hut] at hp2
+      refine ⟨_, Step.atomicOp hp2, step_of_eq (Step.rd (x := x) (rest := rest) (by simp [upd_other _ _ hne, hp])) ?_⟩
+      st_close
+    | localStep hp2 =>
+      rename_i rest2
+      simp only [upd_other _ _ hut] at hp2
+      refine ⟨_, Step.localStep hp2, step_of_eq (Step.rd (x := x) (rest := rest) (by simp [upd_other _ _ hne, hp])) ?_⟩
+      st_close
+  | wr hp =>
+    rename_i x v rest
+    cases h2 with
+    | acqEx hp2 hw2 hr2 =>
+      rename_i m2 rest2
+      simp only [upd_other _ _ hut] at hp2
+      refine ⟨_, Step.acqEx hp2 hw2 hr2, step_of_eq (Step.wr (x := x) (v := v) (rest := rest) (by simp [upd_other _ _ hne, hp])) ?_⟩
+      st_close
+    | acqSh hp2 hw2 =>
+      rename_i m2 rest2
+      simp only [upd_other _ _ hut] at hp2
+      refine ⟨_, Step.acqSh hp2 hw2, step_of_eq (Step.wr (x := x) (v := v) (rest := rest) (by simp [upd_other _ _ hne, hp])) ?_⟩
+      st_close
+    | relEx hp2 hw2 =>
+      rename_i m2 rest2
+      simp only [upd_other _ _ hut] at hp2
+      refine ⟨_, Step.relEx hp2 hw2, step_of_eq (Step.wr (x := x) (v := v) (rest := rest) (by simp [upd_other _ _ hne, hp])) ?_⟩
+      st_close
+    | relSh hp2 hw2 hr2 =>
+      rename_i m2 rest2
+      simp only [upd_other _ _ hut] at hp2
+      refine ⟨_, Step.relSh hp2 hw2 hr2, step_of_eq (Step.wr (x := x) (v := v) (rest := rest) (by simp [upd_other _ _ hne, hp])) ?_⟩
+      st_close
+    | rd hp2 =>
+      rename_i x2 rest2
+      simp only [upd_other _ _ hut] at hp2
+      have hxy : x2 ≠ x := by
+        intro e; subst e
+        exact hnr ⟨t, u, .wr x2 v, .rd x2, hne, by simp [next, hp], by simp [next, hp2], rfl⟩
+      refine ⟨_, Step.rd hp2, step_of_eq (Step.wr (x := x) (v := v) (rest := rest) (by simp [upd_other _ _ hne, hp])) ?_⟩
+      st_close
+    | wr hp2 =>
+      rename_i x2 v2 rest2
+      simp only [upd_other _ _ hut] at hp2
+      have hxy : x2 ≠ x := by
+        intro e; subst e
+        exact hnr ⟨t, u, .wr x2 v, .wr x2 v2, hne, by simp [next, hp], by simp [next, hp2], rfl⟩
+      refine ⟨_, Step.wr hp2, step_of_eq (Step.wr (x := x) (v := v) (rest := rest) (by simp [upd_other _ _ hne, hp])) ?_⟩
+      st_close
+    | atomicOp hp2 =>
+      rename_i rest2
+      simp only [upd_other _ _ hut] at hp2
+      refine ⟨_, Step.atomicOp hp2, step_of_eq (Step.wr (x := x) (v := v) (rest := rest) (by simp [upd_other _ _ hne, hp])) ?_⟩
+      st_close
+    | localStep hp2 =>
+      rename_i rest2
+      simp only [upd_other _ _ hut] at hp2
+      refine ⟨_, Step.localStep hp2, step_of_eq (Step.wr (x := x) (v := v) (rest := rest) (by simp [upd_other _ _ hne, hp])) ?_⟩
+      st_close
+  | atomicOp hp =>
+    rename_i rest
+    cases h2 with
+    | acqEx hp2 hw2 hr2 =>
+      rename_i m2 rest2
+      simp only [upd_other _ _ hut] at hp2
+      refine ⟨_, Step.acqEx hp2 hw2 hr2, step_of_eq (Step.atomicOp (rest := rest) (by simp [upd_other _ _ hne, hp])) ?_⟩
+      st_close
+    | acqSh hp2 hw2 =>
+      rename_i m2 rest2
+      simp only [upd_other _ _ hut] at hp2
+      refine ⟨_, Step.acqSh hp2 hw2, step_of_eq (Step.atomicOp (rest := rest) (by simp [upd_other _ _ hne, hp])) ?_⟩
+      st_close
+    | relEx hp2 hw2 =>
+      rename_i m2 rest2
+      simp only [upd_other _ _ hut] at hp2
+      refine ⟨_, Step.relEx hp2 hw2, step_of_eq (Step.atomicOp (rest := rest) (by simp [upd_other _ _ hne, hp])) ?_⟩
+      st_close
+    | relSh hp2 hw2 hr2 =>
+      rename_i m2 rest2
+      simp only [upd_other _ _ hut] at hp2
+      refine ⟨_, Step.relSh hp2 hw2 hr2, step_of_eq (Step.atomicOp (rest := rest) (by simp [upd_other _ _ hne, hp])) ?_⟩
+      st_close
+    | rd hp2 =>
+      rename_i x2 rest2
+      simp only [upd_other _ _ hut] at hp2
+      refine ⟨_, Step.rd hp2, step_of_eq (Step.atomicOp (rest := rest) (by simp [upd_other _ _ hne, hp])) ?_⟩
+      st_close
+    | wr hp2 =>
+      rename_i x2 v2 rest2
+      simp only [upd_other _ _ hut] at hp2
+      refine ⟨_, Step.wr hp2, step_of_eq (Step.atomicOp (rest := rest) (by simp [upd_other _ _ hne, hp])) ?_⟩
+      st_close
+    | atomicOp hp2 =>
+      rename_i rest2
+      simp only [upd_other _ _ hut] at hp2
+      refine ⟨_, Step.atomicOp hp2, step_of_eq (Step.atomicOp (rest := rest) (by simp [upd_other _ _ hne, hp])) ?_⟩
+      st_close
+    | localStep hp2 =>
+      rename_i rest2
+      simp only [upd_other _ _ hut] at hp2
+      refine ⟨_, Step.localStep hp2, step_of_eq (Step.atomicOp (rest := rest) (by simp [upd_other _ _ hne, hp])) ?_⟩
+      st_close
+  | localStep hp =>
+    rename_i rest
+    cases h2 with
+    | acqEx hp2 hw2 hr2 =>
+      rename_i m2 rest2
+      simp only [upd_other _ _ hut] at hp2
+      refine ⟨_, Step.acqEx hp2 hw2 hr2, step_of_eq (Step.localStep (rest := rest) (by simp [upd_other _ _ hne, hp])) ?_⟩
+      st_close
+    | acqSh hp2 hw2 =>
+      rename_i m2 rest2
+      simp only [upd_other _ _ hut] at hp2
+      refine ⟨_, Step.acqSh hp2 hw2, step_of_eq (Step.localStep (rest := rest) (by simp [upd_other _ _ hne, hp])) ?_⟩
+      st_close
+    | relEx hp2 hw2 =>
+      rename_i m2 rest2
+      simp only [upd_other _ _ hut] at hp2
+      refine ⟨_, Step.relEx hp2 hw2, step_of_eq (Step.localStep (rest := rest) (by simp [upd_other _ _ hne, hp])) ?_⟩
+      st_close
+    | relSh hp2 hw2 hr2 =>
+      rename_i m2 rest2
+      simp only [upd_other _ _ hut] at hp2
+      refine ⟨_, Step.relSh hp2 hw2 hr2, step_of_eq (Step.localStep (rest := rest) (by simp [upd_other _ _ hne, hp])) ?_⟩
+      st_close
+    | rd hp2 =>
+      rename_i x2 rest2
+      simp only [upd_other _ _ hut] at hp2
+      refine ⟨_, Step.rd hp2, step_of_eq (Step.localStep (rest := rest) (by simp [upd_other _ _ hne, hp])) ?_⟩
+      st_close
+    | wr hp2 =>
+      rename_i x2 v2 rest2
+      simp only [upd_other _ _ hut] at hp2
+      refine ⟨_, Step.wr hp2, step_of_eq (Step.localStep (rest := rest) (by simp [upd_other _ _ hne, hp])) ?_⟩
+      st_close
+    | atomicOp hp2 =>
+      rename_i rest2
+      simp only [upd_other _ _ hut] at hp2
+      refine ⟨_, Step.atomicOp hp2, step_of_eq (Step.localStep (rest := rest) (by simp [upd_other _ _ hne, hp])) ?_⟩
+      st_close
+    | localStep hp2 =>
+      rename_i rest2
+      simp only [upd_other _ _ hut] at hp2
+      refine ⟨_, Step.localStep hp2, step_of_eq (Step.localStep (rest := rest) (by simp [upd_other _ _ hne, hp])) ?_⟩
+      st_close
+
+/-- Left mover: any step of `u` followed by a lock-free step of another thread `t` can be swapped. -/
+theorem lockfree_left_mover {L : V → Option M} {σ σ₁ σ₂ : St M V} {t u : Tid} (hi : Inv L σ) (hne : t ≠ u)
+    (h1 : Step σ u σ₁) (h2 : Step σ₁ t σ₂) (hfree : ∀ a, next σ t = some a → a.isLockOp = false) :
+    ∃ σ₁', Step σ t σ₁' ∧ Step σ₁' u σ₂ := by
+  have hnr : ¬ Race σ := no_race_of_disciplined (inv_disciplined hi) hi.lockOK
+  have hut : u ≠ t := Ne.symm hne
+  cases h1 with
+  | acqEx hp2 hw2 hr2 =>
+    rename_i m2 rest2
+    cases h2 with
+    | acqEx hp hw hr =>
+      rename_i m rest
+      simp only [upd_other _ _ hne] at hp
+      have := hfree (.acq m .ex) (by simp [next, hp])
+      simp [Act.isLockOp] at this
+    | acqSh hp hw =>
+      rename_i m rest
+      simp only [upd_other _ _ hne] at hp
+      have := hfree (.acq m .sh) (by simp [next, hp])
+      simp [Act.isLockOp] at this
+    | relEx hp hw =>
+      rename_i m rest
+      simp only [upd_other _ _ hne] at hp
+      have := hfree (.rel m) (by simp [next, hp])
+      simp [Act.isLockOp] at this
+    | relSh hp hw hr =>
+      rename_i m rest
+      simp only [upd_other _ _ hne] at hp
+      have := hfree (.rel m) (by simp [next, hp])
+      simp [Act.isLockOp] at this
+    | rd hp =>
+      rename_i x rest
+      simp only [upd_other _ _ hne] at hp
+      refine ⟨_, Step.rd hp, step_of_eq (Step.acqEx (m := m2) (rest := rest2) (by simp [upd_other _ _ hut, hp2]) hw2 hr2) ?_⟩
+      st_close
+    | wr hp =>
+      rename_i x v rest
+      simp only [upd_other _ _ hne] at hp
+      refine ⟨_, Step.wr hp, step_of_eq (Step.acqEx (m := m2) (rest := rest2) (by simp [upd_other _ _ hut, hp2]) hw2 hr2) ?_⟩
+      st_close
+    | atomicOp hp =>
+      rename_i rest
+      simp only [upd_other _ _ hne] at hp
+      refine ⟨_, Step.atomicOp hp, step_of_eq (Step.acqEx (m := m2) (rest := rest2) (by simp [upd_other _ _ hut, hp2]) hw2 hr2) ?_⟩
+      st_close
+    | localStep hp =>
+      rename_i rest
+      simp only [upd_other _ _ hne] at hp
+      refine ⟨_, Step.localStep hp, step_of_eq (Step.acqEx (m := m2) (rest := rest2) (by simp [upd_other _ _ hut, hp2]) hw2 hr2) ?_⟩
+      st_close
+  | acqSh hp2 hw2 =>
+    rename_i m2 rest2
+    cases h2 with
+    | acqEx hp hw hr =>
+      rename_i m rest
+      simp only [upd_other _ _ hne] at hp
+      have := hfree (.acq m .ex) (by simp [next, hp])
+      simp [Act.isLockOp] at this
+    | acqSh hp hw =>
+      rename_i m rest
+      simp only [upd_other _ _ hne] at hp
+      have := hfree (.acq m .sh) (by simp [next, hp])
+      simp [Act.isLockOp] at this
+    | relEx hp hw =>
+      rename_i m rest
+      simp only [upd_other _ _ hne] at hp
+      have := hfree (.rel m) (by simp [next, hp])
+      simp [Act.isLockOp] at this
+    | relSh hp hw hr =>
+      rename_i m rest
+      simp only [upd_other _ _ hne] at hp
+      have := hfree (.rel m) (by simp [next, hp])
+      simp [Act.isLockOp] at this
+    | rd hp =>
+      rename_i x rest
+      simp only [upd_other _ _ hne] at hp
+      refine ⟨_, Step.rd hp, step_of_eq (Step.acqSh (m := m2) (rest := rest2) (by simp [upd_other _ _ hut, hp2]) hw2) ?_⟩
+      st_close
+    | wr hp =>
+      rename_i x v rest
+      simp only [upd_other _ _ hne] at hp
+      refine ⟨_, Step.wr hp, step_of_eq (Step.acqSh (m := m2) (rest := rest2) (by simp [upd_other _ _ hut, hp2]) hw2) ?_⟩
+      st_close
+    | atomicOp hp =>
+      rename_i rest
+      simp only [upd_other _ _ hne] at hp
+      refine ⟨_, Step.atomicOp hp, step_of_eq (Step.acqSh (m := m2) (rest := rest2) (by simp [upd_other _ _ hut, hp2]) hw2) ?_⟩
+      st_close
+    | localStep hp =>
+      rename_i rest
+      simp only [upd_other _ _ hne] at hp
+      refine ⟨_, Step.localStep hp, step_of_eq (Step.acqSh (m := m2) (rest := rest2) (by simp [upd_other _ _ hut, hp2]) hw2) ?_⟩
+      st_close
+  | relEx hp2 hw2 =>
+    rename_i m2 rest2
+    cases h2 with
+    | acqEx hp hw hr =>
+      rename_i m rest
+      simp only [upd_other _ _ hne] at hp
+      have := hfree (.acq m .ex) (by simp [next, hp])
+      simp [Act.isLockOp] at this
+    | acqSh hp hw =>
+      rename_i m rest
+      simp only [upd_other _ _ hne] at hp
+      have := hfree (.acq m .sh) (by simp [next, hp])
+      simp [Act.isLockOp] at this
+    | relEx hp hw =>
+      rename_i m rest
+      simp only [upd_other _ _ hne] at hp
+      have := hfree (.rel m) (by simp [next, hp])
+      simp [Act.isLockOp] at this
+    | relSh hp hw hr =>
+      rename_i m rest
+      simp only [upd_other _ _ hne] at hp
+      have := hfree (.rel m) (by simp [next, hp])
+      simp [Act.isLockOp] at this
+    | rd hp =>
+      rename_i x rest
+      simp only [upd_other _ _ hne] at hp
+      refine ⟨_, Step.rd hp, step_of_eq (Step.relEx (m := m2) (rest := rest2) (by simp [upd_other _ _ hut, hp2]) hw2) ?_⟩
+      st_close
+    | wr hp =>
+      rename_i x v rest
+      simp only [upd_other _ _ hne] at hp
+      refine ⟨_, Step.wr hp, step_of_eq (Step.relEx (m := m2) (rest := rest2) (by simp [upd_other _ _ hut, hp2]) hw2) ?_⟩
+      st_close
+    | atomicOp hp =>
+      rename_i rest
+      simp only [upd_other _ _ hne] at hp
+      refine ⟨_, Step.atomicOp hp, step_of_eq (Step.relEx (m := m2) (rest := rest2) (by simp [upd_other _ _ hut, hp2]) hw2) ?_⟩
+      st_close
+    | localStep hp =>
+      rename_i rest
+      simp only [upd_other _ _ hne] at hp
+      refine ⟨_, Step.localStep hp, step_of_eq (Step.relEx (m := m2) (rest := rest2) (by simp [upd_other _ _ hut, hp2]) hw2) ?_⟩
+      st_close
+  | relSh hp2 hw2 hr2 =>
+    rename_i m2 rest2
+    cases h2 with
+    | acqEx hp hw hr =>
+      rename_i m rest
+      simp only [upd_other _ _ hne] at hp
+      have := hfree (.acq m .ex) (by simp [next, hp])
+      simp [Act.isLockOp] at this
+    | acqSh hp hw =>
+      rename_i m rest
+      simp only [upd_other _ _ hne] at hp
+      have := hfree (.acq m .sh) (by simp [next, hp])
+      simp [Act.isLockOp] at this
+    | relEx hp hw =>
+      rename_i m rest
+      simp only [upd_other _ _ hne] at hp
+      have := hfree (.rel m) (by simp [next, hp])
+      simp [Act.isLockOp] at this
+    | relSh hp hw hr =>
+      rename_i m rest
+      simp only [upd_other _ _ hne] at hp
+      have := hfree (.rel m) (by simp [next, hp])
+      simp [Act.isLockOp] at this
+    | rd hp =>
+      rename_i x rest
+      simp only [upd_other _ _ hne] at hp
+      refine ⟨_, Step.rd hp, step_of_eq (Step.relSh (m := m2) (rest := rest2) (by simp [upd_other _ _ hut, hp2]) hw2 hr2) ?_⟩
+      st_close
+    | wr hp =>
+      rename_i x v rest
+      simp only [upd_other _ _ hne] at hp
+      refine ⟨_, Step.wr hp, step_of_eq (Step.relSh (m := m2) (rest := rest2) (by simp [upd_other _ _ hut, hp2]) hw2 hr2) ?_⟩
+      st_close
+    | atomicOp hp =>
+      rename_i rest
+      simp only [upd_other _ _ hne] at hp
+      refine ⟨_, Step.atomicOp hp, step_of_eq (Step.relSh (m := m2) (rest := rest2) (by simp [upd_other _ _ hut, hp2]) hw2 hr2) ?_⟩
+      st_close
+    | localStep hp =>
+      rename_i rest
+      simp only [upd_other _ _ hne] at hp
+      refine ⟨_, Step.localStep hp, step_of_eq (Step.relSh (m := m2) (rest := rest2) (by simp [upd_other _ _ hut, hp2]) hw2 hr2) ?_⟩
+      st_close
+  | rd hp2 =>
+    rename_i x2 rest2
+    cases h2 with
+    | acqEx hp hw hr =>
+      rename_i m rest
+      simp only [upd_other _ _ hne] at hp
+      have := hfree (.acq m .ex) (by simp [next, hp])
+      simp [Act.isLockOp] at this
+    | acqSh hp hw =>
+      rename_i m rest
+      simp only [upd_other _ _ hne] at hp
+      have := hfree (.acq m .sh) (by simp [next, hp])
+      simp [Act.isLockOp] at this
+    | relEx hp hw =>
+      rename_i m rest
+      simp only [upd_other _ _ hne] at hp
+      have := hfree (.rel m) (by simp [next, hp])
+      simp [Act.isLockOp] at this
+    | relSh hp hw hr =>
+      rename_i m rest
+      simp only [upd_other _ _ hne] at hp
+      have := hfree (.rel m) (by simp [next, hp])
+      simp [Act.isLockOp] at this
+    | rd hp =>
+      rename_i x rest
+      simp only [upd_other _ _ hne] at hp
+      refine ⟨_, Step.rd hp, step_of_eq (Step.rd (x := x2) (rest := rest2) (by simp [upd_other _ _ hut, hp2]) ) ?_⟩
+      st_close
+    | wr hp =>
+      rename_i x v rest
+      simp only [upd_other _ _ hne] at hp
+      have hxy : x2 ≠ x := by
+        intro e; subst e
+        exact hnr ⟨t, u, .wr x2 v, .rd x2, hne, by simp [next, hp], by simp [next, hp2], rfl⟩
+      refine ⟨_, Step.wr hp, step_of_eq (Step.rd (x := x2) (rest := rest2) (by simp [upd_other _ _ hut, hp2]) ) ?_⟩
+      st_close
+    | atomicOp hp =>
+      rename_i rest
+      simp only [upd_other _ _ hne] at hp
+      refine ⟨_, Step.atomicOp hp, step_of_eq (Step.rd (x := x2) (rest := rest2) (by simp [upd_other _ _ hut, hp2]) ) ?_⟩
+      st_close
+    | localStep hp =>
+      rename_i rest
+      simp only [upd_other _ _ hne] at hp
+      refine ⟨_, Step.localStep hp, step_of_eq (Step.rd (x := x2) (rest := rest2) (by simp [upd_other _ _ hut, hp2]) ) ?_⟩
+      st_close
+  | wr hp2 =>
+    rename_i x2 v2 rest2
+    cases h2 with
+    | acqEx hp hw hr =>
+      rename_i m rest
+      simp only [upd_other _ _ hne] at hp
+      have := hfree (.acq m .ex) (by simp [next, hp])
+      simp [Act.isLockOp] at this
+    | acqSh hp hw =>
+      rename_i m rest
+      simp only [upd_other _ _ hne] at hp
+      have := hfree (.acq m .sh) (by simp [next, hp])
+      simp [Act.isLockOp] at this
+    | relEx hp hw =>
+      rename_i m rest
+      simp only [upd_other _ _ hne] at hp
+      have := hfree (.rel m) (by simp [next, hp])
+      simp [Act.isLockOp] at this
+    | relSh hp hw hr =>
+      rename_i m rest
+      simp only [upd_other _ _ hne] at hp
+      have := hfree (.rel m) (by simp [next, hp])
+      simp [Act.isLockOp] at this
+    | rd hp =>
+      rename_i x rest
+      simp only [upd_other _ _ hne] at hp
+      have hxy : x2 ≠ x := by
+        intro e; subst e
+        exact hnr ⟨t, u, .rd x2, .wr x2 v2, hne, by simp [next, hp], by simp [next, hp2], rfl⟩
+      refine ⟨_, Step.rd hp, step_of_eq (Step.wr (x := x2) (v := v2) (rest := rest2) (by simp [upd_other _ _ hut, hp2]) ) ?_⟩
+      st_close
+    | wr hp =>
+      rename_i x v rest
+      simp only [upd_other _ _ hne] at hp
+      have hxy : x2 ≠ x := by
+        intro e; subst e
+        exact hnr ⟨t, u, .wr x2 v, .wr x2 v2, hne, by simp [next, hp], by simp [next, hp2], rfl⟩
+      refine ⟨_, Step.wr hp, step_of_eq (Step.wr (x := x2) (v := v2) (rest := rest2) (by simp [upd_other _ _ hut, hp2]) ) ?_⟩
+      st_close
+    | atomicOp hp =>
+      rename_i rest
+      simp only [upd_other _ _ hne] at hp
+      refine ⟨_, Step.atomicOp hp, step_of_eq (Step.wr (x := x2) (v := v2) (rest := rest2) (by simp [upd_other _ _ hut, hp2]) ) ?_⟩
+      st_close
+    | localStep hp =>
+      rename_i rest
+      simp only [upd_other _ _ hne] at hp
+      refine ⟨_, Step.localStep hp, step_of_eq (Step.wr (x := x2) (v := v2) (rest := rest2) (by simp [upd_other _ _ hut, hp2]) ) ?_⟩
+      st_close
+  | atomicOp hp2 =>
+    rename_i rest2
+    cases h2 with
+    | acqEx hp hw hr =>
+      rename_i m rest
+      simp only [upd_other _ _ hne] at hp
+      have := hfree (.acq m .ex) (by simp [next, hp])
+      simp [Act.isLockOp] at this
+    | acqSh hp hw =>
+      rename_i m rest
+      simp only [upd_other _ _ hne] at hp
+      have := hfree (.acq m .sh) (by simp [next, hp])
+      simp [Act.isLockOp] at this
+    | relEx hp hw =>
+      rename_i m rest
+      simp only [upd_other _ _ hne] at hp
+      have := hfree (.rel m) (by simp [next, hp])
+      simp [Act.isLockOp] at this
+    | relSh hp hw hr =>
+      rename_i m rest
+      simp only [upd_other _ _ hne] at hp
+      have := hfree (.rel m) (by simp [next, hp])
+      simp [Act.isLockOp] at this
+    | rd hp =>
+      rename_i x rest
+      simp only [upd_other _ _ hne] at hp
+      refine ⟨_, Step.rd hp, step_of_eq (Step.atomicOp (rest := rest2) (by simp [upd_other _ _ hut, hp2]) ) ?_⟩
+      st_close
+    | wr hp =>
+      rename_i x v rest
+      simp only [upd_other _ _ hne] at hp
+      refine ⟨_, Step.wr hp, step_of_eq (Step.atomicOp (rest := rest2) (by simp [upd_other _ _ hut, hp2]) ) ?_⟩
+      st_close
+    | atomicOp hp =>
+      rename_i rest
+      simp only [upd_other _ _ hne] at hp
+      refine ⟨_, Step.atomicOp hp, step_of_eq (Step.atomicOp (rest := rest2) (by simp [upd_other _ _ hut, hp2]) ) ?_⟩
+      st_close
+    | localStep hp =>
+      rename_i rest
+      simp only [upd_other _ _ hne] at hp
+      refine ⟨_, Step.localStep hp, step_of_eq (Step.atomicOp (rest := rest2) (by simp [upd_other _ _ hut, hp2]) ) ?_⟩
+      st_close
+  | localStep hp2 =>
+    rename_i rest2
+    cases h2 with
+    | acqEx hp hw hr =>
+      rename_i m rest
+      simp only [upd_other _ _ hne] at hp
+      have := hfree (.acq m .ex) (by simp [next, hp])
+      simp [Act.isLockOp] at this
+    | acqSh hp hw =>
+      rename_i m rest
+      simp only [upd_other _ _ hne] at hp
+      have := hfree (.acq m .sh) (by simp [next, hp])
+      simp [Act.isLockOp] at this
+    | relEx hp hw =>
+      rename_i m rest
+      simp only [upd_other _ _ hne] at hp
+      have := hfree (.rel m) (by simp [next, hp])
+      simp [Act.isLockOp] at this
+    | relSh hp hw hr =>
+      rename_i m rest
+      simp only [upd_other _ _ hne] at hp
+      have := hfree (.rel m) (by simp [next, hp])
+      simp [Act.isLockOp] at this
+    | rd hp =>
+      rename_i x rest
+      simp only [upd_other _ _ hne] at hp
+      refine ⟨_, Step.rd hp, step_of_eq (Step.localStep (rest := rest2) (by simp [upd_other _ _ hut, hp2]) ) ?_⟩
+      st_close
+    | wr hp =>
+      rename_i x v rest
+      simp only [upd_other _ _ hne] at hp
+      refine ⟨_, Step.wr hp, step_of_eq (Step.localStep (rest := rest2) (by simp [upd_other _ _ hut, hp2]) ) ?_⟩
+      st_close
+    | atomicOp hp =>
+      rename_i rest
+      simp only [upd_other _ _ hne] at hp
+      refine ⟨_, Step.atomicOp hp, step_of_eq (Step.localStep (rest := rest2) (by simp [upd_other _ _ hut, hp2]) ) ?_⟩
+      st_close
+    | localStep hp =>
+      rename_i rest
+      simp only [upd_other _ _ hne] at hp
+      refine ⟨_, Step.localStep hp, step_of_eq (Step.localStep (rest := rest2) (by simp [upd_other _ _ hut, hp2]) ) ?_⟩
+      st_close
+
+/-- A finite sequence of steps, none of them by thread `t`. -/
+inductive OtherSteps (t : Tid) : St M V → St M V → Prop
+  | refl {σ : St M V} : OtherSteps t σ σ
+  | step {σ σ' σ'' : St M V} {u : Tid} : u ≠ t → Step σ u σ' → OtherSteps t σ' σ'' → OtherSteps t σ σ''
+
+theorem step_prog_other {σ σ' : St M V} {t u : Tid} (hs : Step σ u σ') (hne : t ≠ u) : σ'.prog t = σ.prog t := by
+  cases hs <;> simp [upd_other _ _ hne]
+
+theorem step_next_other {σ σ' : St M V} {t u : Tid} (hs : Step σ u σ') (hne : t ≠ u) : next σ' t = next σ t := by
+  simp [next, step_prog_other hs hne]
+
+/-- A lock-free step of a disciplined thread can be postponed past any sequence of steps of other threads. -/
+theorem lockfree_step_delays {L : V → Option M} {σ σ₁ σ₂ : St M V} {t : Tid} (hi : Inv L σ)
+    (h1 : Step σ t σ₁) (hs : OtherSteps t σ₁ σ₂) (hfree : ∀ a, next σ t = some a → a.isLockOp = false) :
+    ∃ σ', OtherSteps t σ σ' ∧ Step σ' t σ₂ := by
+  induction hs generalizing σ with
+  | refl => exact ⟨σ, .refl, h1⟩
+  | step hne hu _ ih =>
+    obtain ⟨σa, hua, hta⟩ := lockfree_right_mover hi (Ne.symm hne) h1 hu hfree
+    have hfree' : ∀ a, next σa t = some a → a.isLockOp = false := by
+      intro a ha; rw [step_next_other hua (Ne.symm hne)] at ha; exact hfree a ha
+    obtain ⟨σ', ho, ht⟩ := ih (step_preserves_inv hua hi) hta hfree'
+    exact ⟨σ', .step hne hua ho, ht⟩
+
+/-- A lock-free step of a disciplined thread can be brought forward before any sequence of steps of other
+threads. -/
+theorem lockfree_step_advances {L : V → Option M} {σ σ₁ σ₂ : St M V} {t : Tid} (hi : Inv L σ)
+    (hs : OtherSteps t σ σ₁) (h2 : Step σ₁ t σ₂) (hfree : ∀ a, next σ t = some a → a.isLockOp = false) :
+    ∃ σ', Step σ t σ' ∧ OtherSteps t σ' σ₂ := by
+  induction hs with
+  | refl => exact ⟨_, h2, .refl⟩
+  | @step σ0 σa _ u hne hu _ ih =>
+    have hfree' : ∀ a, next σa t = some a → a.isLockOp = false := by
+      intro a ha; rw [step_next_other hu (Ne.symm hne)] at ha; exact hfree a ha
+    obtain ⟨σb, htb, hob⟩ := ih (step_preserves_inv hu hi) h2 hfree'
+    obtain ⟨σc, htc, huc⟩ := lockfree_left_mover hi (Ne.symm hne) hu htb hfree
+    exact ⟨σc, htc, .step hne huc hob⟩
+
 end Sem
 /-! ## Fact rows are checked programs -/
 
